@@ -223,16 +223,28 @@ def r09_1(ctx, rr):
             rr.violate(key, "VByte code of length %d: %s" % (k, "; ".join(problems)), eb.span)
     # encode_int_len: thresholds are cumulative sums of 2^(7k)
     lb = F.one(r"^dict::rear_coded_list::encode_int_len$")
-    s = show(F, lb.body)
-    W = Walker(F, lb)
-    W.run()
+    # roles, not names: the value is the parameter, the length is the local returned at the end, the bound is
+    # the local the loop compares the value with
     ok = False
+    pid = lb.params[0]["id"] if lb.params and lb.params[0].get("k") == "PBind" else None
+    tail = lb.body.get("expr") if lb.body.get("k") == "Block" else None
+    len_id = tail.get("id") if tail is not None and tail.get("k") == "Path" and tail.get("res") == "local" else None
+    T0 = Termizer(F, lb)
     inits = {}
     for n in walk(lb.body):
         if n.get("k") == "LetStmt" and n["pat"].get("k") == "PBind" and "init" in n:
-            inits[n["pat"]["name"]] = Termizer(F, lb).term(n["init"])
-    ops = [(n["op"], show(F, n["l"]), Termizer(F, lb).term(n["r"])) for n in walk(lb.body) if n.get("k") == "AssignOp"]
-    ok = inits.get("len") == ("int", 1) and inits.get("max") == ("int", 128) and ("+=", "len", ("int", 1)) in ops and ("<<=", "max", ("int", 7)) in ops and any(o[0] == "-=" and o[1] == "value" for o in ops)
+            inits[n["pat"]["id"]] = T0.term(n["init"])
+    ops = [(n["op"], n["l"].get("id"), n["r"].get("id") if n["r"].get("k") == "Path" else T0.term(n["r"])) for n in walk(lb.body) if n.get("k") == "AssignOp" and n["l"].get("k") == "Path"]
+    loops = [n for n in walk(lb.body) if n.get("k") == "Loop"]
+    max_id = None
+    for n in walk(lb.body):
+        if n.get("k") == "Binary" and n["op"] in (">=", "<=") and n["l"].get("k") == "Path" and n["r"].get("k") == "Path":
+            l_, r_ = (n["l"], n["r"]) if n["op"] == ">=" else (n["r"], n["l"])
+            if l_.get("id") == pid:
+                max_id = r_.get("id")
+    if pid is not None and len_id is not None and max_id is not None and len(loops) == 1:
+        ok = inits.get(len_id) == ("int", 1) and inits.get(max_id) == ("int", 128) and ("+=", len_id, ("int", 1)) in ops and \
+            (("<<=", max_id, ("int", 7)) in ops or ("*=", max_id, ("int", 128)) in ops) and ("-=", pid, max_id) in ops and len(ops) == 3
     rr.instances += 1
     rr.check(ok, "encode_int_len", "encode_int_len must start with one byte and a bound of 128 and, while the value reaches the bound, add a byte, subtract the bound and multiply it by 128 (the thresholds of encode_int)", lb.span)
 
